@@ -776,6 +776,9 @@ META = (META[0] + ' REPCAST (the duration templates never convert a tick count t
 META = (META[0] + ' DEPNAME (a member named on an object of a chrono class template inside a template - not looked up until instantiation - is declared by that template or a base).', META[1])
 
 
+META = (META[0] + ' UNCOND (a compound assignment operator applies its arithmetic on every path; no early return skips it).', META[1])
+
+
 def run(chk, tier):
     quick = tier == "quick"
     db = D.load("checks")
@@ -791,6 +794,9 @@ def run(chk, tier):
     from ..rules import extra11 as _X11
     if _X11.check(chk, db, ['_chrono/']) < 10:      # DEPNAME
         chk.analysis_broken('DEPNAME: fewer than 10 member accesses on objects of a chrono class template found (floor 10)')
+    from ..rules import extra12 as _X12
+    if _X12.unconditional_area(chk, db, ['_chrono/duration.hpp', '_chrono/time_point.hpp']) < 8:      # UNCOND
+        chk.analysis_broken('UNCOND: fewer than 8 compound operators of duration / time_point found (floor 8)')
     from ..rules import rel as _REL
     nrel = _REL.check(chk, db, ["_chrono/time_point.hpp", "_chrono/duration.hpp"])      # REL: the relational operators over the ordering domain
     if chk.rule_instances.get("REL", 0) < 8:
